@@ -84,4 +84,54 @@ mod verif_session {
     async fn mid_surrogate_then_valid() { scenario("\u{1F4A3}", vec![ch(Some((0, 1, 0, 1)), "x"), ch(Some((0, 0, 0, 0)), "y")], None); }
     #[tokio::test]
     async fn multibyte_valid_then_valid() { scenario("\u{df}\n\u{1F4A3}", vec![ch(Some((1, 2, 1, 2)), "x"), ch(Some((0, 1, 1, 0)), "")], Some("\u{df}\u{1F4A3}x")); }
+
+    // several documents: A is forgotten (an inapplicable change), then C is opened and takes A's slot in the file table.
+    // Every document must keep its own text and id; the forgotten one must stay forgotten; nothing may panic.
+    fn open(s: &mut Server, name: &str, text: &str) -> Url {
+        let uri = Url::parse(&format!("file:///verif_session/{name}.gleam")).unwrap();
+        let _ = s.on_did_open(DidOpenTextDocumentParams {
+            text_document: TextDocumentItem { uri: uri.clone(), language_id: "gleam".into(), version: 1, text: text.into() },
+        });
+        uri
+    }
+    fn change(s: &mut Server, uri: &Url, changes: Vec<TextDocumentContentChangeEvent>) {
+        let r = std::panic::catch_unwind(AssertUnwindSafe(|| {
+            let _ = s.on_did_change(DidChangeTextDocumentParams {
+                text_document: VersionedTextDocumentIdentifier { uri: uri.clone(), version: 2 },
+                content_changes: changes,
+            });
+        }));
+        assert!(r.is_ok(), "VERIF-SYMPTOM on_did_change panicked");
+        assert!(s.vfs.write().is_ok(), "VERIF-SYMPTOM the vfs lock is poisoned: every later request fails");
+    }
+    fn text_of(s: &Server, uri: &Url) -> Option<String> {
+        let r = std::panic::catch_unwind(AssertUnwindSafe(|| {
+            let vfs = s.vfs.read().unwrap();
+            vfs.file_for_uri(uri).ok().map(|f| vfs.content_for_file(f).to_string())
+        }));
+        assert!(r.is_ok(), "VERIF-SYMPTOM reading a document's text panicked (vacant slot of the file table)");
+        r.unwrap()
+    }
+    #[tokio::test]
+    async fn multi_doc_slot_reuse() {
+        let mut s = Server::new(ClientSocket::new_closed(), vec![]);
+        let a = open(&mut s, "a", "aa");
+        let b = open(&mut s, "b", "bb");
+        change(&mut s, &a, vec![ch(Some((7, 0, 7, 0)), "x")]);          // cannot be applied: A is forgotten
+        assert_eq!(text_of(&s, &a), None, "VERIF-SYMPTOM document not forgotten after a change that cannot be applied");
+        let c = open(&mut s, "c", "cc");                                  // takes the freed slot
+        assert_eq!(text_of(&s, &a), None, "VERIF-SYMPTOM a forgotten document is served again after another one was opened");
+        assert_eq!(text_of(&s, &b).as_deref(), Some("bb"), "VERIF-SYMPTOM another document's text changed");
+        assert_eq!(text_of(&s, &c).as_deref(), Some("cc"), "VERIF-SYMPTOM a newly opened document is served with another document's text");
+        change(&mut s, &a, vec![ch(Some((0, 0, 0, 0)), "X")]);          // a change for a forgotten document: ignored
+        change(&mut s, &c, vec![ch(Some((0, 0, 0, 0)), "Y")]);
+        assert_eq!(text_of(&s, &b).as_deref(), Some("bb"), "VERIF-SYMPTOM an edit was applied to another document");
+        assert_eq!(text_of(&s, &c).as_deref(), Some("Ycc"), "VERIF-SYMPTOM an edit was not applied to the document it names");
+        change(&mut s, &c, vec![ch(Some((9, 0, 9, 0)), "x")]);          // C is forgotten
+        assert_eq!(text_of(&s, &c), None, "VERIF-SYMPTOM document not forgotten after a change that cannot be applied");
+        assert_eq!(text_of(&s, &b).as_deref(), Some("bb"), "VERIF-SYMPTOM forgetting one document lost or changed another");
+        let a2 = open(&mut s, "a", "a2");                                 // re-open A while B lives above the hole
+        assert_eq!(text_of(&s, &a2).as_deref(), Some("a2"), "VERIF-SYMPTOM a re-opened document is served with another text");
+        assert_eq!(text_of(&s, &b).as_deref(), Some("bb"), "VERIF-SYMPTOM re-opening a document changed another");
+    }
 }
